@@ -218,9 +218,13 @@ func untrusted(t *rapid.T, i int) string {
 func genLoc(t *rapid.T) LocCase {
 	o := tmpl.Options{MaxDepth: 2, MaxItems: 3, Helpers: false, URLBias: true, CommentsOK: true, Weird: true}
 	p := tmpl.Generate(t, o)
-	if rapid.IntRange(0, 2).Draw(t, "splice") == 0 {
+	switch rapid.IntRange(0, 5).Draw(t, "splice") {
+	case 0, 1:
 		// template nodes spliced in at arbitrary positions of the static text (by preference inside tags)
 		tmpl.Splice(t, p, 2)
+	case 2:
+		// a balanced region wrapped into a control structure or moved into a helper template
+		tmpl.Region(t, p)
 	}
 	d := tmpl.Bind(t, p)
 	for i := range d.V {
@@ -310,6 +314,14 @@ var codeShapes = []string{
 	// K-rawnest: the end tag of an element that browsers tokenize as raw text (iframe, noscript with scripting, xmp,
 	// noembed, noframes) written inside an attribute value or a comment; the engine does not model these elements
 	`<noscript><p title="</noscript><script>@@</script>">`, `<iframe><p title="</iframe><script>@@</script>">`, `<xmp><p title='</xmp><style>@@</style>'>`, `<noembed><!-- </noembed><script>@@</script> -->`, `<noframes><a href="</noframes><script>@@//">`,
+	// a DOCTYPE ends at its first '>'
+	`<!DOCTYPE html <p title="><script>@@</script>">`, `<!doctype <a href='><style>@@</style>'>`,
+	// loop bodies that end in another context than they start in, or glue names on re-entry
+	`<a title="{{range .L2}}x" href="@@{{end}}">`, `<p>{{range .L2}}@@<script>{{else}}<script>{{end}}</script>`, `<s {{range .L2}}cript>@@</script><s{{end}}>`, `<p {{range .L2}}title="@@"></p><p{{end}}>`,
+	// helpers that complete names of their callers, called twice
+	`{{define "hc"}}cript>{{end}}<s{{template "hc"}}var x = 1;</script><s{{template "hc"}}@@</script>`, `{{define "hx"}}{{if .F}} {{end}}x="icon"{{end}}<link rel{{template "hx" .}}><link rel{{template "hx" .}} rel="stylesheet" href="@@">`,
+	`{{define "hj"}}"><a href="javascript://{{end}}<a href="{{template "hj"}}">x</a><a href="/{{template "hj"}}@@">y</a>`,
+	`{{define "hb"}}{{.V}}</script>{{end}}{{template "hb" .}}<s{{if .C}}cript{{end}}>{{template "hb" .}}@@`,
 	// a special element's end tag written inside its own start tag (a browser reads attribute names there)
 	`<script </script>@@</script>`, `<script type="module"</script>@@</script>`, `<style </style>@@</style>`, `<script x=1 </script >@@</script>`, `<SCRIPT </SCRIPT>@@</SCRIPT>`,
 	// branches that open different elements one of which is a special element, followed by markup
@@ -374,7 +386,7 @@ func (c CodeCase) render() (string, map[string]interface{}) {
 	if c.Typed != "" {
 		v = tx.Typed(c.Typed, "https://h/trusted/"+string(c.Payload))
 	}
-	data := map[string]interface{}{"V": v, "C": true, "F": false, "L": []interface{}{v}, "U": "/u", "R": "stylesheet ", "TRU": tx.Typed("TrustedResourceURL", "/s.css")}
+	data := map[string]interface{}{"V": v, "C": true, "F": false, "L": []interface{}{v}, "L2": []int{1, 2}, "U": "/u", "R": "stylesheet ", "TRU": tx.Typed("TrustedResourceURL", "/s.css")}
 	act := "{{.V}}"
 	pre := ""
 	switch c.Wrap {
